@@ -91,6 +91,7 @@ Sweep ==
      ELSE IF stopped \/ pend THEN Reject("sweep: the loop did not stop at the first sweep whose measure was below the threshold")
      ELSE IF budget = 0 THEN Reject("sweep: more sweeps than the limit given to solve()")
      ELSE IF Ev.it # iter + 1 THEN Reject("sweep: reported iteration is not the number of sweeps applied")
+     ELSE IF ~Ev.f64 THEN Reject("sweep: values are not float64 although double precision is requested (the default)")
      ELSE IF ~Ev.vok THEN Reject("sweep: values are not exactly representable (rounding, wrong precision or wrong arithmetic)")
      ELSE IF T.kind = "SAVI" /\ ~IsPermutation(Ev.perm, M.ns)
        THEN Reject("sweep: the update order is not a permutation of all states")
